@@ -251,7 +251,7 @@ package parquet
 //@ func PageHeader
 //@   split isRC(r)
 //@   requires srcOrCounter(r)
-//@   modifies heap("parquet.readCounter"), srcPos, rfault, vPage, vDefs
+//@   modifies heap("parquet.readCounter"), srcPos, rfault, vPage, vDefs, curNV
 //@   ghost-exit vPage := false ; vDefs := false
 //@   ensures res0 != nil && freshsince(res0)
 //@   ensures forall q in 0..allocbound(): cast("*parquet.readCounter", q).r == old(cast("*parquet.readCounter", q).r)
@@ -266,8 +266,8 @@ package parquet
 //@ func supportedPage
 //@   requires ph != nil
 //@   safety[C18] nil-deref
-//@   modifies vPage, vDefs
-//@   ghost-exit vPage := res == nil ; vDefs := res == nil && defs
+//@   modifies vPage, vDefs, curNV
+//@   ghost-exit vPage := res == nil ; vDefs := res == nil && defs ; curNV := ph.DataPageHeader.NumValues
 //@   ensures[C18] res == nil ==> pageOK(ph)
 //@   ensures[C18] res == nil && defs ==> ph.DataPageHeader.DefinitionLevelEncoding == 3
 //@   ensures[C18] res == nil && reps ==> ph.DataPageHeader.RepetitionLevelEncoding == 3
@@ -295,7 +295,7 @@ package parquet
 //@ func (*RequiredField).DoRead
 //@   requires external(r)
 //@   safety[C18] nil-deref
-//@   modifies heap("parquet.readCounter"), srcPos, rfault, vPage, vDefs
+//@   modifies heap("parquet.readCounter"), srcPos, rfault, vPage, vDefs, curNV
 //@   ensures err == nil ==> dyn(res0) == typeid("*bytes.Buffer") && payload(res0) != 0 && freshsince(cast("*bytes.Buffer", res0))
 //@   ensures[C10] err == nil ==> (rfault ==> old(rfault))
 //@ loop (*RequiredField).DoRead#1
@@ -305,7 +305,7 @@ package parquet
 //@   requires f != nil && external(r)
 //@   free-requires 1 <= f.MaxLevels.Def && f.MaxLevels.Def <= 15 && f.MaxLevels.Rep <= 15 && (f.repeated ==> 1 <= f.MaxLevels.Rep)
 //@   safety[C18] nil-deref
-//@   modifies f, HA(f.Defs), HA(f.Reps), heap("parquet.readCounter"), srcPos, rfault, vPage, vDefs
+//@   modifies f, HA(f.Defs), HA(f.Reps), heap("parquet.readCounter"), srcPos, rfault, vPage, vDefs, curNV
 //@   ensures err == nil ==> dyn(res0) == typeid("*bytes.Buffer") && payload(res0) != 0 && freshsince(cast("*bytes.Buffer", res0))
 //@   ensures[C10] err == nil ==> (rfault ==> old(rfault))
 //@   ensures[C08] err == nil ==> srcPos >= old(srcPos) + pg.Size
@@ -315,10 +315,16 @@ package parquet
 
 //@ func (*OptionalField).Values
 //@   modifies nothing
+// C04: a page's non-null value count is taken over exactly the page's num_values
+// definition levels (the last bit-packed group of a level stream may be padded
+// with anything), and it is the number of levels equal to the maximum.
+//@ recfn cntEq(A array<int>, off int, n int, m int) int := ite(n <= 0, 0, cntEq(A, off, n - 1, m) + ite(A[off + n - 1] == m, 1, 0))
 //@ func (*OptionalField).valsFromDefs
 //@   modifies nothing
+//@   requires[C04] #defs == curNV
+//@   ensures[C04] res == cntEq(HA(defs), off(defs), #defs, max)
 //@ loop (*OptionalField).valsFromDefs#1
-//@   invariant true
+//@   invariant[C04] 0 <= rangeindex + 1 && rangeindex + 1 <= #defs && out == cntEq(HA(defs), off(defs), rangeindex + 1, max)
 
 //@ func GetBools
 //@   requires dyn(r) == typeid("*bytes.Buffer") && payload(r) != 0
@@ -372,7 +378,7 @@ package parquet
 //@   free-requires n >= 0
 //@   free-requires forall u in 0..9223372036854775808: phIsData(srcB, pagePos(srcB, o, u)) && phNV(srcB, pagePos(srcB, o, u)) >= 0
 //@   safety[C16] nil-deref
-//@   modifies heap("parquet.readCounter"), srcPos, rfault, vPage, vDefs
+//@   modifies heap("parquet.readCounter"), srcPos, rfault, vPage, vDefs, curNV
 //@   ensures[C10] err == nil ==> (rfault ==> old(rfault))
 //@   ensures[C16] err == nil ==> #res0 >= 1 && nvSum(srcB, o, #res0) >= n && srcPos == pagePos(srcB, o, #res0)
 //@   ensures[C16] err == nil && n > 0 ==> nvSum(srcB, o, #res0 - 1) < n
@@ -388,7 +394,7 @@ package parquet
 //@ func PageHeaders
 //@   verify[C16]
 //@   requires footer != nil && external(r)
-//@   modifies heap("parquet.readCounter"), srcPos, rfault, vPage, vDefs
+//@   modifies heap("parquet.readCounter"), srcPos, rfault, vPage, vDefs, curNV
 //@   ensures[C10] err == nil ==> (rfault ==> old(rfault))
 //@ loop PageHeaders#1
 //@   invariant (rfault ==> old(rfault)) && freshOrNil(pageHeaders)
